@@ -56,6 +56,9 @@ class EdgeLandmark(BaseEdge):
 
     """
 
+    #: The supported combinations of (pose type, landmark type)
+    _SUPPORTED_TYPES = ((PoseR2, PoseR2), (PoseSE2, PoseR2), (PoseR3, PoseR3), (PoseSE3, PoseR3))
+
     def __init__(self, vertex_ids, information, estimate, offset, offset_id=None, vertices=None):
         super().__init__(vertex_ids, information, estimate, vertices)
         self.offset = offset
@@ -76,6 +79,10 @@ class EdgeLandmark(BaseEdge):
 
         pose_type = type(self.vertices[0].pose)
         point_type = type(self.vertices[1].pose)
+
+        # The landmark must be a point whose dimensionality matches that of the pose
+        if (pose_type, point_type) not in self._SUPPORTED_TYPES:
+            return False
 
         # The offset must be the same type as the first pose, and the estimate must be the same type as the second pose
         if not isinstance(self.offset, pose_type) or not isinstance(self.estimate, point_type):
